@@ -360,9 +360,9 @@ def sut_read(arr, op):
     if kind == "get":
         return M.render(arr[M.decode_key(op[1])])
     if kind == "to_array":
-        return M.render(arr.to_array())
+        return M.render(arr.to_array(), strict=True)
     if kind == "to_array_nosplat":
-        return M.render(arr.to_array(splat_internal=False))
+        return M.render(arr.to_array(splat_internal=False), strict=True)
     if kind == "mask":
         return M.render_missing(arr.mask)
     if kind == "mask_linear":
